@@ -538,6 +538,29 @@ func (in *Interp) visitInstr(fr *frame, instr ssa.Instruction) continuation {
 			fr.env[instr] = in.C.BVConstU(uint64(x[i]), 8)
 		case bstr:
 			fr.env[instr] = in.indexRead(x.b, fr.get(instr.Index))
+		case *smt.Term:
+			// s[i] on a symbolic string: strings are atoms, so only the bounds check is exact (the
+			// length is strlen(s), zero exactly for ""); the byte itself is an uninterpreted function
+			// of the string and the position.
+			if x.Sort != smt.Str {
+				panic(unsupported{fmt.Sprintf("Index on term of sort %v", x.Sort)})
+			}
+			if gs, ok := in.C.GoString(x); ok {
+				i := in.indexIn(fr.get(instr.Index), len(gs))
+				fr.env[instr] = in.C.BVConstU(uint64(gs[i]), 8)
+				break
+			}
+			idx := fr.get(instr.Index).(*smt.Term)
+			if idx.Sort.W < 64 {
+				idx = in.C.SExt(idx, 64)
+			}
+			n := in.strLen(x).(*smt.Term)
+			if !in.branch(in.C.BVULt(idx, n)) {
+				panic(targetPanic{msg: "runtime error: index out of range [symbolic] with length of a symbolic string"})
+			}
+			in.C.DeclareFun("strbyte", []smt.Sort{smt.Str, smt.BV(64)}, smt.BV(8))
+			in.path.noteAssumption("bytes of a symbolic string are uninterpreted (strbyte)")
+			fr.env[instr] = in.C.App("strbyte", x, idx)
 		default:
 			panic(unsupported{fmt.Sprintf("Index on %T", x)})
 		}
